@@ -185,7 +185,7 @@ func (f *Frame) frameObligations(fc *FuncContract, entry *State, ex *exitRec, en
 		return
 	}
 	name := func(k string) string { return fmt.Sprintf("%s#frame:%s", shortFn(f.fn), c.compName(k)) }
-	if ex.st.epoch != entry.epoch {
+	if fc.ModHeap && ex.st.gepoch != entry.gepoch || !fc.ModHeap && ex.st.epoch != entry.epoch {
 		c.oblige("frame", shortFn(f.fn)+"#frame:*", ex.reach, tFalse, "a callee without contract may write anything; declare `modifies all` or give the callee a contract")
 		return
 	}
@@ -202,7 +202,7 @@ func (f *Frame) frameObligations(fc *FuncContract, entry *State, ex *exitRec, en
 		return
 	}
 	for _, k := range sortedKeys(c.compSort) {
-		if strings.HasPrefix(k, "D|") {
+		if strings.HasPrefix(k, "D|") || (fc.ModHeap && !strings.HasPrefix(k, "X|")) {
 			continue
 		}
 		in, out := c.get(entry, k), c.get(ex.st, k)
